@@ -44,7 +44,12 @@ def target_dir(conf):
 
 def build_one(conf):
     w, std, dev = parse(conf)
-    cfgs = ["dashu_verif"] + ([] if w == 64 else ['force_bits="%d"' % w])
+    cfgs = ["dashu_verif", "cfg_worker"] + ([] if w == 64 else ['force_bits="%d"' % w])
+    if not dev:
+        # what the release axis is about: debug assertions and overflow checks off (profile.release of the harness).
+        # The optimisation level is irrelevant to it and opt-level 3 of all ops modules costs minutes on a loaded
+        # machine: lower it (appended to RUSTFLAGS after cargo's own -C opt-level, so it wins)
+        cfgs[-1] = cfgs[-1] + " -C opt-level=1"
     feats = "std,num-order,serde" if std else "num-order,serde"
     rc, out, bindir, dt = core.cargo_build(profile="dev" if dev else "release", cfgs=tuple(cfgs), features=feats,
                                            target_sub=target_dir(conf), bins=["exec_cfg"])
